@@ -413,7 +413,9 @@ def step (bs : List Byte) (s : Sc) : Step :=
     -- text chunks: the size limits differ by one or two (sizeof (scbuf), - 1, - 2)
     let limit := if m = mk4 "(c) " then 8192 else if m = mk4 "AUTH" then 8191 else 8190
     if size = 0 then fin (.cont { s with pos := pos, csize := 0 })
-    else if size ≥ limit then .fail
+    else if size ≥ limit then
+      -- since cab8acf: an over-long text chunk is logged and skipped like an unknown chunk (it used to fail the open with SFE_INTERNAL)
+      if size ≥ 2 ^ 31 then .unm else fin (.cont { s with pos := pos + size, used := s.used + size, csize := size })
     else
       let (_, p) := rdN bs pos (size + size % 2)
       fin (.cont { s with pos := p, used := s.used + size + size % 2, csize := size + size % 2 })
